@@ -300,6 +300,40 @@ def r06_4(ctx, A, chk):
                 if kinds != {'ok'}:
                     bad.append((callee, sorted(kinds), t.get('span')))
         if n == 0:
+            # the per-item call may sit in a closure driven by a short-circuiting std combinator: iter.try_for_each(|k| b.add(k))
+            SHORT = ('::try_for_each', '::try_fold')
+            for bid, t, local, ty in C11.result_locals_from_calls(f):
+                callee = f.callee(t) or ''
+                clos = []
+                for p in explore(f, max_visits=1, havoc=True, limit=200):
+                    for (k, b2, c2, args, t2) in path_calls(p):
+                        if t2 is t:
+                            clos = [x[1] for a in args for x in walk(a) if x[0] == 'closure' and x[1] in lib.fns and chk.path in cg.reachable([x[1]])]
+                    if clos:
+                        break
+                if not clos:
+                    continue
+                if not callee.endswith(SHORT):
+                    bad.append((callee, ['per-item call inside a closure of a combinator that does not stop at the first error'], t.get('span')))
+                    n += 1
+                    continue
+                n += 1
+                kinds = {x for x, _ in C11.classify(ctx, f, local, bid)}
+                if kinds != {'ok'}:
+                    bad.append((callee, sorted(kinds), t.get('span')))
+                for cp in clos:
+                    cf = lib.fns[cp]
+                    m = 0
+                    for b3, t3, l3, ty3 in C11.result_locals_from_calls(cf):
+                        c3 = cf.callee(t3)
+                        if c3 in lib.fns and chk.path in cg.reachable([c3]) or c3 == chk.path:
+                            m += 1
+                            k3 = {x for x, _ in C11.classify(ctx, cf, l3, b3)}
+                            if k3 != {'ok'}:
+                                bad.append((c3, sorted(k3), t3.get('span')))
+                    if m == 0:
+                        bad.append((cp, ['closure does not return the per-item result'], t.get('span')))
+        if n == 0:
             ctx.undecided(R, 'front:' + name, 'front end makes no fallible call that reaches the ordering check', fn=f)
         else:
             ctx.check(R, not bad, 'front:' + name, 'per-item error not propagated: %s' % bad[:2], fn=f, detail='%d insertion call(s), all through `?`/return' % n, at=bad[0][2] if bad else None)
